@@ -472,6 +472,12 @@ def other_windows(m):
             lo_candidates = [mu['at']]
             if mu.get('cleanup'):
                 lo_candidates.append(mu['cleanup'][0])
+            if mu.get('arrived') is not None and m.events:
+                # rule 1c for this variable too: frames below the handling frame that were
+                # entered after the exception arrived in it belong to its restoration
+                deeper = [e['i'] for e in m.events[mu['arrived']:mu['at']] if e['d'] > mu['hdepth']]
+                if deeper:
+                    lo_candidates.append(deeper[0])
             if a is not None:
                 lo_candidates += [x for x in mu['enclosing'] if x >= a]
             lo = min(lo_candidates)
